@@ -376,9 +376,32 @@ def rule_rd_eof(cx, rep, port):
         ok = len(ex) == 1 and len(rv) == 1 and isinstance(ex[0].parent, ast.If) and _tests_empty(ex[0].parent.test, rv[0]) is True and ex[0] in ex[0].parent.body
         rep.decide(ok, 'exhaustion', ex[0] if ex else r, 'exhausted is set exactly when read() returns nothing', 'the exhausted flag is not set exactly on an empty read')
         # loop continues until a newline is seen in the chunk
-        brk = [n for n in walk_no_nested(r) if isinstance(n, ast.If) and any(isinstance(x, ast.Call) and isinstance(x.func, ast.Attribute) and x.func.attr == 'search' for x in ast.walk(n.test)) and n.body and isinstance(n.body[0], ast.Break)]
-        ok2 = len(brk) == 1 and isinstance(brk[0].test, ast.Compare) and isinstance(brk[0].test.ops[0], ast.IsNot)
-        rep.decide(ok2, 'read until newline', brk[0] if brk else r, 'reading stops when a chunk contains a line break', 'the read loop does not stop exactly when a chunk contains a line break')
+        def found_test(e):
+            """+1: e is true when the chunk contains a line break (`search(..) is not None` / truthy search); -1: true when it does not; 0: other"""
+            neg = 1
+            while negated(e) is not None:
+                e, neg = negated(e), -neg
+            has_search = lambda x: isinstance(x, ast.Call) and isinstance(x.func, ast.Attribute) and x.func.attr == 'search' and x.args and rv and is_name(x.args[0], rv[0])  # noqa: E731
+            if isinstance(e, ast.Compare) and len(e.ops) == 1 and has_search(e.left) and is_none(e.comparators[0]):
+                return neg * (1 if isinstance(e.ops[0], (ast.IsNot, ast.NotEq)) else -1)
+            if has_search(e):
+                return neg
+            return 0
+        brk = [n for n in walk_no_nested(r) if isinstance(n, ast.If) and found_test(n.test) != 0 and n.body and isinstance(n.body[0], ast.Break)]
+        loops_r = [n for n in walk_no_nested(r) if isinstance(n, ast.While)]
+        flags = [n for n in walk_no_nested(r) if isinstance(n, ast.Assign) and isinstance(n.targets[0], ast.Name) and found_test(n.value) != 0]
+        if len(brk) == 1:
+            rep.decide(found_test(brk[0].test) == 1, 'read until newline', brk[0], 'reading stops when a chunk contains a line break', 'the read loop stops when a chunk does NOT contain a line break')
+        elif len(flags) == 1 and len(loops_r) == 1 and flags[0] is loops_r[0].body[-1]:
+            # flag-controlled loop: `while not found: ...; found = search(chunk) is not None`
+            f_, pol = flags[0].targets[0].id, found_test(flags[0].value)
+            t_ = loops_r[0].test
+            cont_when_flag = is_name(t_, f_)
+            cont_when_not_flag = negated(t_) is not None and is_name(negated(t_), f_)
+            ok2 = (pol == 1 and cont_when_not_flag) or (pol == -1 and cont_when_flag)
+            rep.decide(ok2, 'read until newline', flags[0], 'reading stops when a chunk contains a line break (flag-controlled loop)', 'the read loop does not stop exactly when a chunk contains a line break')
+        else:
+            rep.undecided('read until newline', r, 'how the read loop reacts to a line break in the chunk was not recognised')
     else:
         end = p.func('rbql_csv', 'CSVRecordIterator.process_data_stream_end')
         sets = [n for n in walk_no_nested(end) if isinstance(n, ast.Assign) and dotted(n.targets[0]) == 'self.input_exhausted' and is_true(n.value)]
@@ -410,31 +433,59 @@ def rule_rd_bom(cx, rep, port):
     mod = 'rbql_csv'
     fd = p.func(mod, 'remove_utf8_bom')
     line, enc = fd.args.args[0].arg, fd.args.args[1].arg
-    # two arms: latin-1/binary three bytes EF BB BF -> [3:], utf-8 U+FEFF -> [1:]
-    arms = [n for n in fd.body if isinstance(n, ast.If)]
+    # per path: under which encoding, after which BOM test, how many code units are cut (path summaries with module constants
+    # substituted and len('...') folded, so named constants, nested ifs and computed lengths are all the same thing)
+    from .. import pathsem
+    consts = p.module_consts(mod)
+    env0 = {k: ast.Constant(value=v) for k, v in consts.items() if isinstance(v, (str, int))}
+    ps = pathsem.paths_with_env(fd, env0)
+
+    class Fold(ast.NodeTransformer):
+        def visit_Call(self, node):
+            self.generic_visit(node)
+            if dotted(node.func) == 'len' and len(node.args) == 1 and isinstance(node.args[0], ast.Constant) and isinstance(node.args[0].value, str):
+                return ast.Constant(value=len(node.args[0].value))
+            return node
     found = {}
-    for a in arms:
-        consts = [x.value for x in ast.walk(a.test) if isinstance(x, ast.Constant)]
-        cut = None
-        r = a.body[0] if a.body and isinstance(a.body[0], ast.Return) else None
-        if r is not None:
-            v = r.value
-            if isinstance(v, ast.Subscript) and isinstance(v.slice, ast.Slice) and isinstance(v.slice.lower, ast.Constant):
+    problems = []
+    if ps is None:
+        rep.undecided('BOM arms', fd, 'remove_utf8_bom is not straight-line code')
+    else:
+        for q in ps:
+            if q.kind != 'return' or q.value is None:
+                continue
+            v = Fold().visit(q.value)
+            if is_name(v, line):
+                continue
+            cut = None
+            if isinstance(v, ast.Subscript) and is_name(v.value, line) and isinstance(v.slice, ast.Slice) and isinstance(v.slice.lower, ast.Constant) and v.slice.upper is None:
                 cut = v.slice.lower.value
-            if isinstance(v, ast.Call) and isinstance(v.func, ast.Attribute) and v.func.attr in ('substring', 'slice') and v.args and isinstance(v.args[0], ast.Constant):
+            if isinstance(v, ast.Call) and isinstance(v.func, ast.Attribute) and v.func.attr in ('substring', 'slice', 'substr') and is_name(v.func.value, line) and len(v.args) == 1 and isinstance(v.args[0], ast.Constant):
                 cut = v.args[0].value
-        if 'utf-8' in consts:
-            bom_ok = '﻿' in consts or 0xFEFF in consts
-            found['utf-8'] = (cut, bom_ok, a)
-        if 'latin-1' in consts or 'binary' in consts:
-            bom_ok = '\xef\xbb\xbf' in consts or {0xEF, 0xBB, 0xBF} <= set(c for c in consts if isinstance(c, int))
-            found['latin-1'] = (cut, bom_ok, a)
-    for encn, want in (('utf-8', 1), ('latin-1', 3)):
-        if encn not in found:
-            rep.violated('BOM arm ' + encn, fd, 'no BOM removal for {} input'.format(encn))
-            continue
-        cut, bom_ok, node = found[encn]
-        rep.decide(cut == want and bom_ok, 'BOM arm ' + encn, node, 'removes exactly the {} BOM code unit(s)'.format(want), 'the {} BOM arm removes {} unit(s) / tests the wrong value (must remove exactly {})'.format(encn, cut, want))
+            encs, bom_units = set(), []
+            for atom, pol in pathsem.atoms(q.conds):
+                atom = Fold().visit(atom)
+                if not pol or not isinstance(atom, ast.Compare) or len(atom.ops) != 1 or not isinstance(atom.ops[0], (ast.Eq, ast.Is)):
+                    continue
+                l_, r_ = atom.left, atom.comparators[0]
+                if is_name(l_, enc) and isinstance(r_, ast.Constant):
+                    encs.add(r_.value)
+                elif isinstance(r_, ast.Constant) and line in names_in(l_):
+                    if isinstance(r_.value, str):
+                        bom_units.extend(ord(ch) for ch in r_.value)
+                    elif isinstance(r_.value, int) and not isinstance(r_.value, bool):
+                        bom_units.append(r_.value)
+            if len(encs) > 1:
+                continue     # infeasible: the encoding cannot equal two different constants
+            for e_ in encs:
+                found.setdefault(e_, []).append((cut, bom_units, q.node))
+        for encn, want_units in (('utf-8', [0xFEFF]), ('latin-1' if port == 'py' else 'binary', [0xEF, 0xBB, 0xBF])):
+            arms_ = found.get(encn)
+            if not arms_:
+                rep.violated('BOM arm ' + encn, fd, 'no BOM removal for {} input'.format(encn))
+                continue
+            bad = [(cut, units, node) for cut, units, node in arms_ if not (cut == len(want_units) and units == want_units)]
+            rep.decide(not bad, 'BOM arm ' + encn, arms_[0][2], 'removes exactly the {} BOM code unit(s) after testing for them'.format(len(want_units)), 'the {} BOM arm removes {} unit(s) after testing {} (must test {} and remove exactly {})'.format(encn, bad[0][0] if bad else '', [hex(u) for u in bad[0][1]] if bad else '', [hex(u) for u in want_units], len(want_units)))
     last = fd.body[-1]
     rep.decide(isinstance(last, ast.Return) and is_name(last.value, line), 'no BOM', last, 'a line without BOM is returned unchanged', 'a line without BOM is not returned unchanged')
     # caller: guarded by first physical line, sets the flag iff the line changed
